@@ -9,7 +9,6 @@ use starknet_crypto::Felt;
 use swiftness_air::{
     diluted::get_diluted_product,
     public_memory::PublicInput,
-    types::{AddrValue, ContinuousPageHeader, Page},
 };
 
 /// Dilute(x): bit i of x moves to bit i*spacing (an integer; reduced modulo p only when it enters the field).
@@ -99,18 +98,7 @@ impl PmCase {
         t
     }
     fn public_input(&self) -> PublicInput {
-        PublicInput {
-            log_n_steps: fu(10),
-            range_check_min: Felt::ZERO,
-            range_check_max: fu(100),
-            layout: fu(1),
-            dynamic_params: None,
-            segments: vec![],
-            padding_addr: self.pad.0,
-            padding_value: self.pad.1,
-            main_page: Page(self.cells.iter().map(|c| AddrValue { address: c.0, value: c.1 }).collect()),
-            continuous_page_headers: self.headers.iter().map(|h| ContinuousPageHeader { start_address: h.0, size: h.1, hash: h.2, prod: h.3 }).collect(),
-        }
+        crate::refm::pubin::make_public_input(fu(10), Felt::ZERO, fu(100), fu(1), None, &[], self.pad, &self.cells, &self.headers)
     }
     /// naive product on big integers; None when a factor vanishes (division by zero: not judged here)
     fn reference(&self) -> Option<BigUint> {
